@@ -37,8 +37,9 @@ def emptyStore : Store := List.replicate 16 []
 /-- Switches for the places where the code deviates from the reference semantics.
     `false` everywhere = the specification. Each switch is documented at its use site. -/
 structure Quirks where
-  emptyKeyRefused : Bool := false     -- SET/GET/INCR/INCRBY refuse the empty key
-  lazyExpiryOnlyOnStringReads : Bool := false  -- (C02) see `visible`
+  /-- (C02) the code tests a key's deadline only in GET/EXISTS/SET NX/TTL/SCAN; every other command sees an
+      expired entry until the sweeper removes it.  `true` = the entry stays visible to those commands. -/
+  lateExpiryVisible : Bool := false
   deriving Repr, DecidableEq
 
 def Quirks.spec : Quirks := {}
@@ -366,8 +367,7 @@ def delKeys : Db → List Bytes → Nat → Db × Nat
 
 def cmdDel (db : Db) (args : List Bytes) : Db × Frame :=
   if args.isEmpty then (db, err) else
-  let (db', n) := delKeys db args 0
-  (db', nat n)
+  ((delKeys db args 0).1, nat (delKeys db args 0).2)
 
 def cmdExists (db : Db) (args : List Bytes) : Db × Frame :=
   if args.isEmpty then (db, err) else
@@ -543,13 +543,12 @@ def cmdLrem (db : Db) (args : List Bytes) : Db × Frame :=
     | some c => match lookup db k with
       | none => (db, int 0)
       | some ⟨.list xs, d⟩ =>
-        let (r, n) :=
+        let rn :=
           if c > 0 then removeFirst v (some c.toNat) xs
           else if c < 0 then
-            let (r, n) := removeFirst v (some (-c).toNat) xs.reverse
-            (r.reverse, n)
+            ((removeFirst v (some (-c).toNat) xs.reverse).1.reverse, (removeFirst v (some (-c).toNat) xs.reverse).2)
           else removeFirst v none xs
-        (putColl db k ⟨.list xs, d⟩ (.list r), nat n)
+        (putColl db k ⟨.list xs, d⟩ (.list rn.1), nat rn.2)
       | some _ => (db, wrongType)
   | _ => (db, err)
 
@@ -564,8 +563,8 @@ def addAll : List Bytes → List Bytes → List Bytes × Nat
 def cmdSadd (db : Db) (args : List Bytes) : Db × Frame :=
   match args with
   | k :: m :: ms => match lookup db k with
-    | none => let (s, n) := addAll [] (m :: ms); (insert db k { val := .set s, deadline := none }, nat n)
-    | some ⟨.set xs, d⟩ => let (s, n) := addAll xs (m :: ms); (insert db k { val := .set s, deadline := d }, nat n)
+    | none => (insert db k { val := .set (addAll [] (m :: ms)).1, deadline := none }, nat (addAll [] (m :: ms)).2)
+    | some ⟨.set xs, d⟩ => (insert db k { val := .set (addAll xs (m :: ms)).1, deadline := d }, nat (addAll xs (m :: ms)).2)
     | some _ => (db, wrongType)
   | _ => (db, err)
 
@@ -579,7 +578,7 @@ def cmdSrem (db : Db) (args : List Bytes) : Db × Frame :=
   match args with
   | k :: m :: ms => match lookup db k with
     | none => (db, int 0)
-    | some ⟨.set xs, d⟩ => let (s, n) := removeAll xs (m :: ms); (putColl db k ⟨.set xs, d⟩ (.set s), nat n)
+    | some ⟨.set xs, d⟩ => (putColl db k ⟨.set xs, d⟩ (.set (removeAll xs (m :: ms)).1), nat (removeAll xs (m :: ms)).2)
     | some _ => (db, wrongType)
   | _ => (db, err)
 
@@ -727,11 +726,9 @@ def cmdHset (db : Db) (multi : Bool) (args : List Bytes) : Db × Frame :=
     if pairs.isEmpty ∨ pairs.length % 2 ≠ 0 then (db, err) else
     match lookup db k with
     | none =>
-      let (fs, n) := hsetPairs [] pairs 0
-      (insert db k { val := .hash fs, deadline := none }, if multi then ok else nat n)
+      (insert db k { val := .hash (hsetPairs [] pairs 0).1, deadline := none }, if multi then ok else nat (hsetPairs [] pairs 0).2)
     | some ⟨.hash old, d⟩ =>
-      let (fs, n) := hsetPairs old pairs 0
-      (insert db k { val := .hash fs, deadline := d }, if multi then ok else nat n)
+      (insert db k { val := .hash (hsetPairs old pairs 0).1, deadline := d }, if multi then ok else nat (hsetPairs old pairs 0).2)
     | some _ => (db, wrongType)
   | _ => (db, err)
 
@@ -773,8 +770,7 @@ def cmdHdel (db : Db) (args : List Bytes) : Db × Frame :=
   | k :: f :: fl => match lookup db k with
     | none => (db, int 0)
     | some ⟨.hash fs, d⟩ =>
-      let (fs', n) := hdelFields fs (f :: fl) 0
-      (putColl db k ⟨.hash fs, d⟩ (.hash fs'), nat n)
+      (putColl db k ⟨.hash fs, d⟩ (.hash (hdelFields fs (f :: fl) 0).1), nat (hdelFields fs (f :: fl) 0).2)
     | some _ => (db, wrongType)
   | _ => (db, err)
 
@@ -848,10 +844,9 @@ def cmdNames : List String :=
 
 /-- One command on one (already purged) database. `name` is upper-cased. -/
 def stepDb (q : Quirks) (db : Db) (now : Nat) (name : String) (args : List Bytes) (obs : Option (List Bytes)) : Db × Frame :=
-  let emptyKey := q.emptyKeyRefused && (match args with | k :: _ => k.isEmpty | [] => false)
   match name with
-  | "SET" => if emptyKey then (db, err) else cmdSet db now args
-  | "GET" => if emptyKey then (db, err) else cmdGet db args
+  | "SET" => cmdSet db now args
+  | "GET" => cmdGet db args
   | "MGET" => cmdMget db args
   | "MSET" => cmdMset db args
   | "GETSET" => cmdGetset db args
@@ -862,9 +857,9 @@ def stepDb (q : Quirks) (db : Db) (now : Nat) (name : String) (args : List Bytes
   | "STRLEN" => cmdStrlen db args
   | "GETRANGE" => cmdGetrange db args
   | "SETRANGE" => cmdSetrange db args
-  | "INCR" => if emptyKey then (db, err) else cmdIncrDecr db 1 args
+  | "INCR" => cmdIncrDecr db 1 args
   | "DECR" => cmdIncrDecr db (-1) args
-  | "INCRBY" => if emptyKey then (db, err) else cmdIncrbyDecrby db 1 args
+  | "INCRBY" => cmdIncrbyDecrby db 1 args
   | "DECRBY" => cmdIncrbyDecrby db (-1) args
   | "DEL" => cmdDel db args
   | "EXISTS" => cmdExists db args
